@@ -2,7 +2,11 @@
 
 package transmit
 
-import "github.com/honeycombio/refinery/types"
+import (
+	"sync"
+
+	"github.com/honeycombio/refinery/types"
+)
 
 // VerifC26Pending returns the number of events currently waiting in the per-destination batches.
 func (d *DirectTransmission) VerifC26Pending() int {
@@ -23,3 +27,6 @@ func VerifC26PackedSize(ev *types.Event) (int, error) {
 	b, err := pe.MarshalMsg(nil)
 	return len(b), err
 }
+
+// VerifC26BatchBufferPool returns the pool of serialization / compression buffers shared by all sendBatch calls.
+func VerifC26BatchBufferPool() *sync.Pool { return &batchBufferPool }
